@@ -58,6 +58,10 @@ STATEMENTS = [
     'result = 1 + 2', 'result = 10 * 10 * 10',
     # `pass` in front of a string statement: without it the string would be the docstring of the block's owner (F39)
     'pass\n"a string after pass"', 'pass\npass\n"a string after two passes"\nvalue_after = 1', 'pass\nb"bytes after pass"', 'pass\n42\n"later string"',
+    # the same for the other statement-removing options (F41)
+    'assert checked_value\n"a string after assert"', 'assert first_check\nassert second_check, "message"\n"a string after two asserts"\nvalue_after = 1',
+    'if __debug__: debug_call()\n"a string after a debug block"', 'if __debug__ is True:\n    debug_call()\nassert checked_value\npass\n"a string after all three"',
+    'pass\nassert checked_value\n"string after pass and assert"', 'assert checked_value\npass\nb"bytes after assert and pass"\n"then a string"',
     # annotations without a value on targets that are not names: nothing is evaluated but the object (and the index)
     'holder.attribute: int', 'holder[0]: int', 'holder.attribute.deeper: "Text"', 'holder[first_index][second_index]: int',
 ]
@@ -261,6 +265,38 @@ def canon_request(tree, o, brackets, keep_doc):
                                pyast.enc_module(tree))
 
 
+def docstrings(tree):
+    """{path of def / class names (with an occurrence count per owner): docstring or None}, the module at ()"""
+    res = {}
+
+    def owner(node, path):
+        res[path] = ast.get_docstring(node, clean=False)
+        counts = {}
+
+        def inside(n):
+            for ch in ast.iter_child_nodes(n):
+                if isinstance(ch, (ast.FunctionDef, ast.AsyncFunctionDef, ast.ClassDef)):
+                    counts[ch.name] = counts.get(ch.name, 0) + 1
+                    owner(ch, path + ((ch.name, counts[ch.name]),))
+                elif not isinstance(ch, ast.Lambda):
+                    inside(ch)
+        inside(node)
+    owner(tree, ())
+    return res
+
+
+def docstring_problems(tree, qtree, o):
+    """no option documents giving a module, class or function a docstring, or changing one; remove_literal_statements alone may
+    take one away"""
+    before, after = docstrings(tree), docstrings(qtree)
+    out = []
+    for path in sorted(set(before) & set(after)):
+        b, a = before[path], after[path]
+        if a != b and not (a is None and o.get('remove_literal_statements')):
+            out.append('%s: docstring %r became %r' % ('.'.join(n for n, _k in path) or '<module>', b, a))
+    return out
+
+
 def run_programs(ctx, progs, osets, found_by):
     from python_minifier.transforms.remove_exception_brackets import builtin_exceptions as impl_list
     t_reqs, t_meta, c_reqs, c_meta = [], [], [], []
@@ -296,6 +332,14 @@ def run_programs(ctx, progs, osets, found_by):
                     t_meta.append((ident, oname, src, out))
                 except pyast.OutOfModel as e:
                     ctx.bump('out_of_model', str(e))
+            # (O) docstrings: what `__doc__` says is not any option's to change (but remove_literal_statements may remove it)
+            try:
+                dp = docstring_problems(tree, ast.parse(out), o)
+            except SyntaxError:
+                dp = []
+            if dp:
+                ctx.add_violation({'input': {'source': src, 'options': o}, 'what': 'docstrings differ: ' + '; '.join(dp[:3]), 'observed': out[:300],
+                                   'found_by': found_by, 'oracle': 'docstrings', 'shapes': shapes_of(src, o)})
             # (O) documented-rewrite canon on the real output, folding judged elsewhere
             if not o['constant_folding'] and not opaque_fstring:
                 try:
